@@ -407,13 +407,42 @@ class Ctx:
         self.compare("cache_state", ref, got, f"index cache left in state {state!r} by earlier edits vs no cache at all", skip_log=True)
         self.classify("cache_state:" + state, "w1", ref)
 
+    ODD_TPF = (
+        "?\tctgA:1-500\tscfA\tPLUS\n"
+        "GAP\tSCAFFOLD\t200\n"
+        "?\tctgB:1-300\tscfA\tMINUS\n"
+        "GAP\tCONTIG\t10\n"
+        "?\tctgC:11-90\tscfA\tPLUS\n"
+        "GAP\tREPEAT\t7\n"
+        "?\tctgD:1-40\tscfA\tPLUS\n"
+        "GAP\tTYPE-2\t100\n"
+        "?\tctgE:1-40\tscfB\tPLUS\n"
+        "?\tctgF:1-40\tscfB\tPLUS\n"
+    )
+
+    def run_odd_asmformat(self, fmt):
+        """asm-format on a TPF that spells its gap types differently from what
+        the tools write (SCAFFOLD, CONTIG, REPEAT): whatever parsing it teaches
+        the process must not show in later outputs."""
+        d = os.path.join(self.root, "in_odd")
+        if not os.path.isdir(d):
+            os.makedirs(d)
+            Path(os.path.join(d, "odd.tpf")).write_text(self.ODD_TPF)
+            self.world.stamp_path(os.path.join(d, "odd.tpf"))
+        outd = self.new_out()
+        r, trace = self.run_inproc(self.af.cli, [os.path.join(d, "odd.tpf"), "-o", os.path.join(outd, f"odd.{fmt}")], "asm-format", end=False)
+        oc = Outcome(r.code, self.collect(outd, d), r.stderr)
+        oc.outd, oc.ind = outd, d
+        return oc
+
     def dim_history(self, ref):
         """Other invocations first, without the end-of-process clean-up in
         between, then the same inputs again; finally every earlier run's files
         must still be what they were when that run finished."""
         rng = random.Random(self.case["hist_seed"])
         done = []
-        steps = rng.choice([["w2", "w1"], ["w2", "af", "w1"], ["w1", "w2", "w1"], ["af", "w2", "w2", "w1"], ["w2", "w1", "af", "w1"]])
+        steps = rng.choice([["w2", "w1"], ["w2", "af", "w1"], ["w1", "w2", "w1"], ["af", "w2", "w2", "w1"], ["w2", "w1", "af", "w1"],
+                            ["af", "w1"], ["w2", "af", "w1"]])
         box = {"last": None}
         afmt = [rng.choice(["tpf", "agp"]) for _ in steps]
         # invocations before the last one may log elsewhere or not at all
@@ -429,6 +458,8 @@ class Ctx:
                 for k, st in enumerate(steps):
                     if st == "af":
                         oc = self.run_asmformat("w2", afmt[k], end=False)
+                        done.append((st, oc))
+                        oc = self.run_odd_asmformat(afmt[k])
                     else:
                         oc = self.run_p2a(st, end=False, mode=modes[k])
                         if st == "w1" and modes[k] == "normal":
